@@ -53,6 +53,15 @@ def observe(cls_name, cfg):
     return rec, log
 
 
+def weights_of(df):
+    """improvements as exact fractions; an improvement from a failed (-inf) parent is infinite and outweighs every finite one:
+    the weighted means then are the means over the infinitely improving trials (the limit of the documented rule)"""
+    vals = [float(v) for v in df]
+    if any(v == float("inf") for v in vals):
+        return [Fraction(1) if v == float("inf") else Fraction(0) for v in vals]
+    return [Fraction(v) for v in vals]
+
+
 def main(tier: str) -> int:
     chk = C.Check("C15", tier)
     chk.lean()
@@ -122,6 +131,9 @@ def main(tier: str) -> int:
     runs.append(("SHADE", dict(pop_size=103, iters=3, objective="sphere", seed=chk.seed * 100 + 88, keep_history=True)))
     # jDE long enough for a new best to appear in another slot than the last after the parameters have diverged, elitism on
     runs.append(("jDE", dict(pop_size=12, iters=30, objective="sphere", minimization=True, elitism=True, seed=chk.seed * 100 + 89, keep_history=True, t_F=0.3, t_CR=0.3)))
+    # failed evaluations reported as -inf while maximising: an improvement FROM a failed parent is infinite
+    runs.append(("SHADE", dict(pop_size=8, iters=10, objective="fail_lo", seed=chk.seed * 100 + 91, keep_history=True)))
+    runs.append(("SHAGA", dict(pop_size=8, iters=10, objective="fail_lo", str_len=12, seed=chk.seed * 100 + 92, keep_history=True)))
     # objectives in very small units (improvements far below numpy.isclose's absolute tolerance)
     for j, mn in enumerate((True, False)):
         runs.append(("SHADE", dict(pop_size=8, iters=14, objective="tiny", minimization=mn, seed=chk.seed * 100 + 80 + j, keep_history=True)))
@@ -196,7 +208,7 @@ def main(tier: str) -> int:
                 # arithmetic mean of the successful CR)
                 if cn == "SHADE" and len(S):
                     Sf = [Fraction(float(v)) for v in S]
-                    dff = [Fraction(float(v)) for v in df]
+                    dff = weights_of(df)
                     if hk == "_H_F":
                         want = sum(v * v for v in Sf) / sum(Sf) if sum(Sf) != 0 else Fraction(0)
                     else:
@@ -209,7 +221,7 @@ def main(tier: str) -> int:
                 # (improvements measured on the normalised fitness, so they are positive for minimisation and maximisation alike)
                 if cn == "SHAGA" and len(S):
                     Sf = [Fraction(float(v)) for v in S]
-                    dff = [Fraction(float(v)) for v in df]
+                    dff = weights_of(df)
                     if sum(dff) > 0:
                         den = sum(w * v for w, v in zip(dff, Sf))
                         want = sum(w * v * v for w, v in zip(dff, Sf)) / den if den != 0 else Fraction(0)    # the Lehmer mean of zeros is 0
@@ -221,6 +233,8 @@ def main(tier: str) -> int:
                                  {"optimizer": cn, "clause": "rule", "memory": hk})
                 if cn == "SHADE" and hk == "_H_F":
                     add({"op": "ad_update_f", "u": C.rat(u), "S": [C.rat(float(v)) for v in S]}, ("update_F:SHADE", {**dd, "u": u, "S": S.tolist()}, float(ha[nk])))
+                elif any(float(v) == float("inf") for v in df):
+                    chk.count("infinite_improvement")
                 elif cn == "SHADE":
                     add({"op": "ad_update_cr", "u": C.rat(u), "S": [C.rat(float(v)) for v in S], "df": [C.rat(float(v)) for v in df]},
                         ("update_CR:SHADE", {**dd, "u": u, "S": S.tolist(), "df": df.tolist()}, float(ha[nk])))
